@@ -84,6 +84,25 @@ impl Codepage for u8 {
     }
 }
 
+/// Encode a single character, accepting the result only if it decodes back to that character.
+/// encoding_rs follows the WHATWG encoders, which contain a few one-way mappings (i.e. Shift-JIS
+/// turns U+00A5 into 0x5C and U+203E into 0x7E); those would silently become a different
+/// character on the other side.
+fn encode_exact<'a>(
+    encoding: &'static encoding_rs::Encoding,
+    character: &'a str,
+) -> Option<Cow<'a, [u8]>> {
+    let (cow, _, error) = encoding.encode(character);
+    if error {
+        return None;
+    }
+    let (decoded, error) = encoding.decode_without_bom_handling(&cow);
+    if error || decoded != character {
+        return None;
+    }
+    Some(cow)
+}
+
 /// Convert from a String, with potential lossy conversion to an Insim Codepage String
 /// Assumes you will escape any characters ahead of time, it will do not this for you.
 /// See <https://github.com/theangryangel/insim.rs/issues/92> for further details.
@@ -131,10 +150,7 @@ pub fn to_lossy_bytes(input: &str) -> Cow<[u8]> {
         buf.fill(0);
         let char_as_bytes = c.encode_utf8(&mut buf);
 
-        // allowing unwrap because we should never get to a position where we cannot have one
-        let (cow, _, error) = current_encoding.encode(char_as_bytes);
-
-        if !error {
+        if let Some(cow) = encode_exact(current_encoding, char_as_bytes) {
             output.extend_from_slice(&cow);
             continue;
         }
@@ -152,11 +168,10 @@ pub fn to_lossy_bytes(input: &str) -> Cow<[u8]> {
                 .unwrap_or_else(|| unreachable!());
 
             // try to encode the current character
-            let (cow, _, error) = candidate_encoding.encode(char_as_bytes);
-            if error {
+            let Some(cow) = encode_exact(candidate_encoding, char_as_bytes) else {
                 // this codepage doesnt match, try the next one
                 continue;
-            }
+            };
 
             // this one matched, push the control character and codepage control character
             output.push(u8::lfs_control_char());
